@@ -20,6 +20,7 @@
 -/
 import Qfx.Lemmas.ConcC02
 import Qfx.Lemmas.SessC02
+import Qfx.Lemmas.SessC02b
 import Qfx.Gen.Facts
 open Qfx Qfx.Conc
 
@@ -254,6 +255,70 @@ theorem C02_seq_queue_saved (cfg : Cfg) (s0 t0 : Int) (evs : List Sess.Ev) (hp :
   obtain ⟨_, _, _, d⟩ := C02_seq_run cfg.persist (initSess cfg s0 t0) evs (G2.init s0) hg
   exact d hp
 
+/-! ### per-epoch clauses of the sequential layer: wire order, and "saved since the last reset" -/
+
+namespace C02seq
+open Qfx.Sess Qfx.Sess.C02 Qfx.Sess.C02b
+def GoodE (p : Bool) (g : G3) (s : Sess) : Prop :=
+  g.ok = true ∧ s.cfg.persist = p ∧ QSeq g.lastFirst s.toSend s.store.sender ∧
+  (p = true → ∀ m ∈ s.toSend, firstTime m = true → triple m ∈ g.savedE)
+end C02seq
+
+open C02seq Qfx.Sess Qfx.Sess.C02 Qfx.Sess.C02b in
+theorem C02_seq_epoch_step (p : Bool) (s : Sess) (e : Sess.Ev) (hb : benign e = true) (g : G3) (h : GoodE p g s) :
+    GoodE p ((step s e).2.1.foldl (g3Step p) g) (step s e).1 := by
+  have h0 : E p g s.clearLog := by
+    unfold GoodE at h
+    unfold E g3Of Sess.clearLog
+    simpa using h
+  have h1 := E_stepCore p g s.clearLog e hb h0
+  unfold step
+  simp only []
+  generalize stepCore s.clearLog e = r at h1
+  obtain ⟨s', status⟩ := r
+  simp only [] at h1 ⊢
+  unfold E g3Of at h1
+  exact h1
+
+open C02seq Qfx.Sess Qfx.Sess.C02 Qfx.Sess.C02b in
+theorem C02_seq_epoch_run (p : Bool) (s : Sess) (evs : List Sess.Ev) (hb : ∀ e ∈ evs, benign e = true) (g : G3)
+    (h : GoodE p g s) : GoodE p ((traceOf s evs).foldl (g3Step p) g) (runEvents s evs) := by
+  induction evs generalizing s g with
+  | nil => exact h
+  | cons e es ih =>
+    simp only [traceOf, runEvents, List.foldl_append]
+    exact ih _ (fun x hx => hb x (by simp [hx])) _ (C02_seq_epoch_step p s e (hb e (by simp)) g h)
+
+open C02seq Qfx.Sess Qfx.Sess.C02 Qfx.Sess.C02b in
+/-- **C02, sequential layer, per epoch**: every configuration, every initial outbound number ≥ 1, every history in which
+    the application does not itself submit a Logon carrying ResetSeqNumFlag=Y (`benign`; the engine's own Logons go
+    through `dropAndSendInReplyTo`): first-time messages are written to the connection in strictly increasing number
+    order within an epoch (a reset starts a new epoch), and with persistence a first-time write of (n, MsgType,
+    resend verdict) happens only after the store saved exactly that SINCE THE LAST RESET — what is written is still in
+    the store.  (After the `fix:` every reset either drops the queue first or replaces it.) -/
+theorem C02_seq_epoch (cfg : Cfg) (s0 t0 : Int) (hs : 0 < s0) (evs : List Sess.Ev) (hb : ∀ e ∈ evs, benign e = true) :
+    c02SeqEpochAccepts cfg.persist (traceOf (initSess cfg s0 t0) evs) = true := by
+  have hg : GoodE cfg.persist G3.init (initSess cfg s0 t0) :=
+    ⟨rfl, rfl, by simpa [initSess, G3.init, QSeq] using hs, fun _ m hm => by simp [initSess] at hm⟩
+  exact (C02_seq_epoch_run cfg.persist (initSess cfg s0 t0) evs hb G3.init hg).1
+
+open Qfx.Sess Qfx.Sess.C02b in
+/-- liveness of one wake-up, sequential model: a flush (`SendAppMessages`) of a logged-on session that has a
+    connection writes everything that is queued, in queue order, and leaves nothing queued -/
+theorem C02_seq_flush_transmits_all (s : Sess) (hl : s.st.loggedOn = true) (ho : s.out = true) :
+    (step s .flush).1.toSend = [] ∧ (step s .flush).2.1 = s.toSend.map Obs.wire := by
+  unfold step stepCore
+  have hf : fuelOf s.clearLog = (4 * s.inbox.length + 7) + 1 := by simp [fuelOf, Sess.clearLog]
+  simp only [hf]
+  rw [checkSessionTime_inrange _ _ (loggedOn_sessionTime _ (by simpa [Sess.clearLog] using hl))]
+  simp [Sess.clearLog, hl, sendQueued, ho]
+
+/- the hypotheses of the flush theorem are satisfiable (interpreter-checked): after connect + Logon an acceptor is
+   logged on and has a connection -/
+#guard (let s := C02seq.runEvents (Sess.initSess {} 1 1) [.connect, .incomingMsg (some
+    { f := [(8, "FIX.4.2"), (35, "A"), (49, "TGT"), (56, "SND"), (34, "1"), (52, "@0"), (98, "0"), (108, "30")] })]
+  s.out && s.st.loggedOn)
+
 /-! ### the sequential monitor is not vacuous -/
 section
 open Qfx.Sess Qfx.Sess.C02
@@ -267,6 +332,11 @@ def c02m (k : String) (n : Int) (dup : Bool) : OutMsg := { kind := k, seq := n, 
 #guard c02SeqAccepts false 5 [.incS, .wire (c02m "D" 5 false)] == true                     -- persistence off
 #guard c02SeqAccepts true 5 [.saved 5 "D" true, .reset, .saved 1 "A" true] == true         -- a reset starts at 1
 #guard c02SeqAccepts true 5 [.saved 5 "D" true, .reset, .saved 6 "A" true] == false
+#guard c02SeqEpochAccepts true [.saved 5 "D" true, .saved 6 "D" true, .wire (c02m "D" 5 false), .wire (c02m "D" 6 false)] == true
+#guard c02SeqEpochAccepts true [.saved 5 "D" true, .saved 6 "D" true, .wire (c02m "D" 6 false), .wire (c02m "D" 5 false)] == false  -- out of order
+#guard c02SeqEpochAccepts true [.saved 5 "D" true, .reset, .wire (c02m "D" 5 false)] == false                   -- no longer in the store
+#guard c02SeqEpochAccepts true [.saved 5 "D" true, .wire (c02m "D" 5 false), .reset, .saved 1 "A" true, .wire (c02m "A" 1 false)] == true
+#guard c02SeqEpochAccepts false [.incS, .incS, .wire (c02m "D" 6 false), .wire (c02m "D" 5 false)] == false      -- order also without persistence
 
 /-- non-vacuity of the theorem: an acceptor logs on, the application sends twice, a flush writes both -/
 def c02Logon : InMsg :=
@@ -294,24 +364,23 @@ def c02ResetLogon : Sess.InMsg :=
               | .reset => some "reset" | _ => none))
         == ["saved 1 A", "wire 1 A", "saved 2 D", "reset", "saved 1 D", "saved 2 D", "wire 1 D", "wire 2 D"]
 
-/-- not proved for the sequential model (the concurrent model proves its per-epoch version, clauses `wire_order` and
-    `persist_before_wire`): at the moment a first-time message is written the store still holds a message under its
-    number.  It needs the extra invariant "every queued first-time number is below the store's next number and bound
-    in `store.msgs`", which the reset paths now maintain (the queue is dropped first); left as a statement. -/
-def C02_seq_store_has_message_at_wire_full : Prop :=
-  ∀ (cfg : Sess.Cfg) (s0 t0 : Int) (evs : List Sess.Ev) (e : Sess.Ev), cfg.persist = true →
-    ∀ m, Sess.Obs.wire m ∈ (Sess.step (C02seq.runEvents (Sess.initSess cfg s0 t0) evs) e).2.1 →
-      Sess.C02.firstTime m = true → ∃ n, (Sess.step (C02seq.runEvents (Sess.initSess cfg s0 t0) evs) e).1.store.lookup m.seq = some n
+/-! Remark on readings.  "Retrievable from the store no later than it reaches the wire" is stated on the observation
+trace (`C02_seq_epoch`: a `saved (n, kind, resendable)` since the last `reset` precedes the first-time `wire`), not on
+the store AFTER the event: an event may write and then legitimately reset (a Logout answered under ResetOnLogout
+flushes the Logout and then calls dropAndReset), so "the store after the step still holds n" is false for correct
+behaviour.  Resets are the only way the model's store forgets, hence the observation-level statement is the exact one. -/
 
 /-!
 Clause checklist (properties.jsonl C02 → theorems)
 * next unused number, n, n+1, … no gap no repeat, whichever goroutines : C02_all_schedules (clauses consecutive, sender_next), for ALL schedules
                                                                           of the lock-level model; C02_seq (sequential model, all histories)
-* first-time transmissions on the wire in increasing order             : C02_all_schedules (clause wire_order, per epoch)
-* while logged on every assigned number is transmitted                 : NOT proved (liveness; depends on the messageEvent wake-up). Sampled by the
-                                                                          stress harness (every accepted send is seen on the wire before the round ends).
+* first-time transmissions on the wire in increasing order             : C02_all_schedules (clause wire_order, per epoch); C02_seq_epoch (sequential model)
+* while logged on every assigned number is transmitted                 : C02_seq_flush_transmits_all (one flush of a logged-on, connected session writes the whole
+                                                                          queue, sequential model); that the wake-up happens (messageEvent) is NOT proved — sampled by
+                                                                          the stress harness (every number handed out after logon is read from the connection).
 * bytes under n retrievable from the store no later than the wire      : C02_all_schedules (clause persist_before_wire) + C02_final_store;
-                                                                          C02_seq / C02_seq_queue_saved (number, MsgType, resend verdict of the saved message);
+                                                                          C02_seq / C02_seq_queue_saved / C02_seq_epoch (number, MsgType, resend verdict of the saved
+                                                                          message; saved since the last reset);
                                                                           byte identity is the codec family's business (C10/C11)
 * store's next outbound number one past the highest handed out         : C02_final_store, C02_seq (second conjunct)
 * no first-time message between the replayed ones                      : C02_all_schedules (clauses replay_exclusive, replay_lock), C02_resend_lock_exclusive
